@@ -165,9 +165,17 @@ def field_cfgs(mode):
     return [("MC_Field.tla", "cfg/" + n) for n in idx if n.startswith("MC_Field_") and n.endswith("_%s.cfg" % mode)]
 
 
+def mont_cfgs(tier):
+    idx = open(os.path.join(SPEC, "cfg", "INDEX")).read().split()
+    names = [n for n in idx if n.startswith("MC_Mont_")]
+    if tier != "thorough":
+        names = [n for n in names if n.endswith("bad99.cfg") or n == "MC_Mont_p251_w4_bad1.cfg"]
+    return [("MC_Mont.tla", "cfg/" + n) for n in names]
+
+
 def c10(c):
     build_both()
-    c.mc(field_cfgs("arith"))
+    c.mc(field_cfgs("arith") + mont_cfgs(c.tier))
     plan, n = gen_plan("FieldPlan.tla", "cfg/FieldPlan.cfg", "field")
     c.notes.append("FieldPlan: %d operand pairs generated by TLC by the Montgomery residue of their result (every limb x 7 special "
                    "limb values x 3 fills of the lower limbs x {32,64}-bit limbs x 3 fields x mul/add/sub/div)" % n)
